@@ -14,7 +14,7 @@ SPEC = {
  "mark":     ("h_mark", [], ["GC_Recurse:cv_recurse", "mark:cv_tls_mark"], ["GC_Mark"], ["C01"]),
  "sweep":    ("h_sweep", ["MARKS=1"], ["GC_Resize_Less:cv_resize_less"], ["GC_Sweep"], ["C01", "C06", "C17"]),
  "sweep_owner": ("h_sweep_owner", ["MARKS=1"], ["GC_Resize_Less:cv_resize_less"], ["GC_Sweep", "GC_Rem", "GC_Rem_Ptr"], ["C06"]),
- "sweep_owner_cut": ("h_sweep_owner_cut", ["MARKS=1"], ["GC_Resize_Less:cv_resize_less"], ["GC_Sweep", "del (cut by the contract of GC_Rem_Ptr)"], ["C06"]),
+ "sweep_owner_cut": ("h_sweep_owner_cut", ["MARKS=1", "CV_REENTER_CUT"], ["GC_Resize_Less:cv_resize_less"], ["GC_Sweep", "del (cut by the contract of GC_Rem_Ptr)"], ["C06"]),
  "gc_set":   ("h_gc_set", [], ["GC_Resize_More:cv_resize_more", "GC_Mark:cv_mark_stub", "GC_Sweep:cv_sweep_stub"], ["GC_Set"], ["C17", "C01"]),
  "gc_rem":   ("h_gc_rem", [], ["GC_Resize_Less:cv_resize_less"], ["GC_Rem", "GC_Rem_Ptr"], ["C06", "C17"]),
  "gc_del":   ("h_gc_del", [], ["GC_Resize_Less:cv_resize_less", "rem:cv_tls_rem"], ["GC_Del", "GC_Sweep"], ["C06"]),
